@@ -18,7 +18,9 @@ import (
 	"github.com/MichaelMure/git-bug/api/graphql"
 	httpapi "github.com/MichaelMure/git-bug/api/http"
 	"github.com/MichaelMure/git-bug/cache"
+	"github.com/MichaelMure/git-bug/entities/bug"
 	"github.com/MichaelMure/git-bug/entity"
+	"github.com/MichaelMure/git-bug/repository"
 )
 
 func init() { props["C17"] = runC17 }
@@ -161,6 +163,7 @@ func runC17(c *runCtx) {
 					// build the input object from the introspected input type
 					snap := b0.Snapshot()
 					var parts []string
+					sent := map[string]string{}
 					typeName := ""
 					if len(f.Args) > 0 {
 						typeName = f.Args[0].Type.Name
@@ -185,14 +188,17 @@ func runC17(c *runCtx) {
 								val = `"zzzzzz"`
 							}
 						case "title":
-							val = fmt.Sprintf("%q", "title "+randHexId(r, 6))
+							sent["title"] = "title " + randHexId(r, 6)
+							val = fmt.Sprintf("%q", sent["title"])
 							if !valid {
 								val = `""`
 							}
 						case "message":
-							val = fmt.Sprintf("%q", pickOne(r, []string{"hello", "multi\nline", "ünï", longText(500)}))
+							sent["message"] = pickOne(r, []string{"hello " + randHexId(r, 4), "multi\nline " + randHexId(r, 4), "ünï " + randHexId(r, 4), longText(500)})
+							val = fmt.Sprintf("%q", sent["message"])
 						case "added":
-							val = fmt.Sprintf("[%q]", "label"+randHexId(r, 3))
+							sent["added"] = "label" + randHexId(r, 3)
+							val = fmt.Sprintf("[%q]", sent["added"])
 						case "removed":
 							val = `[]`
 						default:
@@ -200,7 +206,7 @@ func runC17(c *runCtx) {
 						}
 						parts = append(parts, name+": "+val)
 					}
-					q := fmt.Sprintf("mutation { %s(input: {%s}) { clientMutationId } }", f.Name, strings.Join(parts, ", "))
+					q := fmt.Sprintf("mutation { %s(input: {%s}) { clientMutationId bug { id title status labels { name } comments(first: 500) { totalCount nodes { message } } } } }", f.Name, strings.Join(parts, ", "))
 					before := snapshot()
 					opsBefore := opCount()
 					h := anon
@@ -264,6 +270,7 @@ func runC17(c *runCtx) {
 						if !changed {
 							c.violation(c.nCases, "C17/no-change-with-user", fmt.Sprintf("mutation %s reported success but nothing changed", f.Name), nil)
 						}
+						c17Recorded(c, repo, rc, f.Name, sent, res)
 					}
 				}
 			}
@@ -310,4 +317,107 @@ func runC17(c *runCtx) {
 		}
 	}
 	_ = entity.Id("")
+}
+
+// c17Recorded: after a mutation that reported success with a user attached, the requested change is
+// recorded (stored in git, nothing left staged), and the bug handed back in the payload reflects it.
+func c17Recorded(c *runCtx, repo repository.ClockedRepo, rc *cache.RepoCache, name string, sent map[string]string, res map[string]any) {
+	var pb struct {
+		Id, Title, Status string
+		Labels            []struct{ Name string }
+		Comments          struct {
+			TotalCount int
+			Nodes      []struct{ Message string }
+		}
+	}
+	func() {
+		defer func() { recover() }()
+		fj, _ := json.Marshal(res["data"].(map[string]any)[name].(map[string]any)["bug"])
+		json.Unmarshal(fj, &pb)
+	}()
+	if pb.Id == "" {
+		c.violation(c.nCases, "C17/payload", fmt.Sprintf("mutation %s: the payload holds no bug", name), res)
+		return
+	}
+	bc, err := rc.Bugs().Resolve(entity.Id(pb.Id))
+	if err != nil {
+		c.violation(c.nCases, "C17/payload", fmt.Sprintf("mutation %s: the payload's bug %s is not in the cache: %v", name, pb.Id, err), nil)
+		return
+	}
+	if bc.NeedCommit() {
+		c.violation(c.nCases, "C17/not-recorded", fmt.Sprintf("mutation %s reported success but left operations of bug %s uncommitted", name, pb.Id[:7]), nil)
+	}
+	stored, err := bug.Read(repo, entity.Id(pb.Id))
+	if err != nil {
+		c.violation(c.nCases, "C17/not-recorded", fmt.Sprintf("mutation %s: bug %s cannot be read from git: %v", name, pb.Id[:7], err), nil)
+		return
+	}
+	gs := stored.Compile()
+	cs := bc.Snapshot()
+	if len(gs.Operations) != len(cs.Operations) {
+		c.violation(c.nCases, "C17/not-recorded", fmt.Sprintf("mutation %s reported success: git holds %d operations of bug %s, the cache %d", name, len(gs.Operations), pb.Id[:7], len(cs.Operations)), nil)
+	}
+	labelsOf := func() []string {
+		var out []string
+		for _, l := range pb.Labels {
+			out = append(out, l.Name)
+		}
+		return out
+	}
+	// what the request asked for, judged on what git holds and on what the payload says
+	type view struct {
+		where, title, status string
+		labels               []string
+		comments             []string
+	}
+	var gl, gcm []string
+	for _, l := range gs.Labels {
+		gl = append(gl, string(l))
+	}
+	for _, cm := range gs.Comments {
+		gcm = append(gcm, cm.Message)
+	}
+	var pcm []string
+	for _, n := range pb.Comments.Nodes {
+		pcm = append(pcm, n.Message)
+	}
+	for _, v := range []view{{"git", gs.Title, strings.ToUpper(gs.Status.String()), gl, gcm}, {"payload", pb.Title, pb.Status, labelsOf(), pcm}} {
+		bad := func(what string) {
+			c.violation(c.nCases, "C17/change-not-reflected", fmt.Sprintf("mutation %s with a user: %s (%s)", name, what, v.where), map[string]any{"sent": sent, "view": fmt.Sprint(v)})
+		}
+		switch name {
+		case "setTitle", "newBug":
+			if v.title != sent["title"] {
+				bad("title is " + trunc(v.title, 60) + ", requested " + sent["title"])
+			}
+		}
+		switch name {
+		case "closeBug", "addCommentAndClose":
+			if v.status != "CLOSED" {
+				bad("status is " + v.status + " after a close")
+			}
+		case "openBug", "addCommentAndReopen", "newBug":
+			if v.status != "OPEN" {
+				bad("status is " + v.status + " after an open")
+			}
+		}
+		switch name {
+		case "addComment", "addCommentAndClose", "addCommentAndReopen", "newBug", "editComment":
+			if m, ok := sent["message"]; ok && (len(v.comments) == 0 || v.comments[len(v.comments)-1] != m) {
+				last := "<none>"
+				if len(v.comments) > 0 {
+					last = v.comments[len(v.comments)-1]
+				}
+				bad("last comment is " + trunc(last, 60) + ", requested " + trunc(m, 60))
+			}
+		case "changeLabels":
+			found := false
+			for _, l := range v.labels {
+				found = found || l == sent["added"]
+			}
+			if !found {
+				bad("label " + sent["added"] + " is missing")
+			}
+		}
+	}
 }
